@@ -373,7 +373,30 @@ func execute2(c *hx.Case, p program, choose func(enabled []int, last int) int, t
 			}
 		}
 	}
-	// (c') per half-open period with probeNum 0: at most one admitted request performed the transition
+	// (c') ProbeNum 0: an admitted request that did not itself move the breaker Open -> HalfOpen must have a linearisation
+	// point inside its span at which the breaker was closed: while open or half-open nothing but the probe is admitted
+	// ("each passage to half-open admits exactly one probe until that probe completes")
+	if p.probeNum == 0 {
+		for _, o := range ops {
+			if o.kind != oEntry || !o.admitted {
+				continue
+			}
+			performer, sawClosed := false, false
+			for _, ch := range changes {
+				if ch.op == o && ch.from == model.Open && ch.to == model.HalfOpen {
+					performer = true
+				}
+			}
+			for st := o.s0; st <= o.s1; st++ {
+				if v, ok := stateAt[st]; ok && v == model.Closed {
+					sawClosed = true
+				}
+			}
+			if !performer && !sawClosed {
+				return fmt.Sprintf("(c') request g%d was admitted although the breaker was never closed during the request (steps %d..%d) and the request is not the one that moved it to half-open: a second request passed beside the probe: %s", o.g, o.s0, o.s1, dump()), aba
+			}
+		}
+	}
 	return "", aba
 }
 
@@ -430,6 +453,8 @@ func basePrograms() []program {
 		// open, deadline passed: two tasks race for the probe
 		ps = append(ps, program{strategy: model.ErrorCount, probeNum: probe, retry: 5, start: 1, early: 0, preHeld: []int{0, 0}, tasks: [][]int{{oEntry, oExitErr}, {oEntry}}})
 		ps = append(ps, program{strategy: model.ErrorCount, probeNum: probe, retry: 5, start: 1, early: 1, preHeld: []int{0, 0}, tasks: [][]int{{oEntry}, {oEntry}}})
+		ps = append(ps, program{strategy: model.ErrorRatio, probeNum: probe, retry: 5, start: 1, early: 0, preHeld: []int{0, 0}, tasks: [][]int{{oEntry}, {oEntry}}})
+		ps = append(ps, program{strategy: model.SlowRequestRatio, probeNum: probe, retry: 5, start: 1, early: 0, preHeld: []int{0, 0}, tasks: [][]int{{oEntry}, {oEntry}}})
 		// half-open with the probe in flight: it completes while another request arrives
 		ps = append(ps, program{strategy: model.ErrorCount, probeNum: probe, retry: 5, start: 2, preHeld: []int{0, 0}, tasks: [][]int{{oExitErr}, {oEntry}}})
 		ps = append(ps, program{strategy: model.ErrorRatio, probeNum: probe, retry: 5, start: 2, preHeld: []int{0, 0}, tasks: [][]int{{oExitOK}, {oEntry, oExitErr}}})
